@@ -197,6 +197,8 @@ def r3(F, R):
                                   any(sl == loads[0][0] for sl, _ in A.slice_back(fin, start_locals=[g.discr_local]).calls) and g.polarity() is True)
                               for s2, _ in locks)
     R.check(okl, "finished-flag-first", fin, "finished && (…)", "IS_FINISHED can be true before the parser finished")
+    from .c04 import check_finished_requires_flag
+    check_finished_requires_flag(F, R, "tripped-still-waits-for-parser")
     # the loop is left only when nothing is in flight
     fin_ev = [(s, st) for s, st in ex.assigns(lambda st: st["rv"]["k"] == "agg" and st["rv"].get("adt") == "event::Cucumber" and st["rv"]["variant"] == "Finished")]
     ok_e = False
@@ -242,28 +244,56 @@ def r4(F, R):
 
 def r5(F, R):
     ing = roles.insert_features(F)
-    ff = bool_param_upvar(F, ing)
+    ing_fn = F.parent_body(ing)
     nexts = [a for a in A.awaits(ing) if re.search(r"stream::Next<", a.fut_type)]
     if len(nexts) != 1:
         raise Unverifiable("stream next await in ingestion")
     nx = nexts[0]
-    ok = False
+    runs = [b for adt, b in roles.trait_impl_methods(F, r"runner::Runner$", "run") if adt == "runner::basic::Basic"]
+    if len(runs) != 1:
+        raise Unverifiable("Runner::run impl")
+    run = runs[0]
+    calls = [(s, t) for s, t in run.calls() if F.callee_body(t) is ing_fn]
+    if len(calls) != 1:
+        raise Unverifiable("call of insert_features")
+    found = None
     for bb in sorted(ing.live_blocks):
         t = ing.blocks[bb]["term"]
         if t["k"] != "switch":
             continue
-        g = A.Guard(ing, bb, [None], [t["otherwise"]])
-        src = guard_source(F, ing, g)
-        if src[0] == "upvar" and src[1] == ff:
-            vc = A.vc_at(ing, Site(ing, bb, "T"))
-            in_err = any(v == frozenset(["Err"]) for v in vc.values())
-            true_t = t["otherwise"]
-            leaves = nx.poll_site.bb not in ing.reachable_blocks(true_t)
-            if in_err and leaves:
-                ok = True
-    R.check(ok, "ingestion-stops-on-first-error", nx.poll_site, "Err ∧ fail_fast ⇒ leave the ingestion loop",
-            "with fail-fast on, ingestion continues after a parser error")
-    R.floor(1)
+        vc = A.vc_at(ing, Site(ing, bb, "T"))
+        if not any(v == frozenset(["Err"]) for v in vc.values()):
+            continue
+        l = op_local(t["discr"])
+        if l is None or ing.locals[l] != "bool":
+            continue
+        true_t = t["otherwise"]
+        if nx.poll_site.bb in ing.reachable_blocks(true_t):
+            continue  # this edge does not leave the loop
+        # sources of the condition
+        ds = A.deep_slice(F, ing, start_locals=[l])
+        fields = {(o, n) for o, n in ds.fields if n == "fail_fast"}
+        for k, p in ds.root_params:
+            if k == ing_fn.key:
+                sl = A.slice_back(run, [calls[0][1]["args"][p - 1]])
+                fields |= {(o, n) for o, n in sl.fields if n == "fail_fast"}
+                for s0, k0, p0 in run.defs.get(op_local(calls[0][1]["args"][p - 1]) or -1, []):
+                    pass
+                # `a || b` in Runner::run: also the guard of the const-true definition
+                cl = A.canon_place(run, {"l": op_local(calls[0][1]["args"][p - 1]), "p": []})["l"] if op_local(calls[0][1]["args"][p - 1]) is not None else None
+                for s0, k0, p0 in run.defs.get(cl, []):
+                    for g in A.guards_of(run, s0):
+                        if g.discr_local is not None:
+                            fields |= {(o, n) for o, n in A.slice_back(run, start_locals=[g.discr_local]).fields if n == "fail_fast"}
+        if fields:
+            found = (bb, fields)
+    R.check(found is not None, "ingestion-stops-on-first-error", nx.poll_site, "Err ∧ fail_fast ⇒ leave the ingestion loop",
+            "with fail-fast on, ingestion continues after a parser error (no fail_fast-dependent exit in the Err arm)")
+    if found:
+        want = {("runner::basic::Cli", "fail_fast"), ("runner::basic::Basic", "fail_fast")}
+        R.check(found[1] >= want, "ingestion-stop-uses-merged-flag", Site(ing, found[0], "T"), "the exit uses cli.fail_fast || builder flag",
+                f"ingestion's stop condition reads only {sorted(o for o, n in found[1])}: fail-fast given the other way does not stop ingestion")
+    R.floor(2)
 
 
 RULES = [("R1", r1, None), ("R2", r2, None), ("R3", r3, None), ("R4", r4, None), ("R5", r5, None)]
